@@ -301,6 +301,24 @@ CHECKS = {
               "(replace_basic_cs under pandas 3, fix: 652b3a2)."),
         technique="TLA+ topology lattice with geometry definition terms (TLC) evaluated at 30 digits against every construction route; rigid-motion laws",
     ),
+    "C15": dict(
+        cat="exploration",
+        text=("specs/NTFL.tla: the configuration lattice - interface size 1-3 x how Source and Load are handed over (free-free matrices "
+              "with a selection or a general full-row-rank recovery matrix, or Craig-Bampton form with a partition vector at permuted "
+              "positions) x damping kind (proportional, full, none on the Load, non-symmetric so that response / input indices are "
+              "distinguishable) x force position: 120 legal configurations; TLC checks that every class of equivalent hand-overs is "
+              "non-trivial and contains BOTH computation routes (unit boundary forces through SolveUnc/FreqDirect, cbtf). Definitions "
+              "as terms: dynamic stiffness, boundary accelerance, apparent mass = its inverse, free acceleration, the NT equations, "
+              "the CB congruence, and the DIRECT solution of the physically coupled system with a Lagrange multiplier for Ts xs = Tl xl "
+              "(shares nothing with ntfl / calcAM). Every configuration x 6 (thorough 40) seeded network pairs x 6 frequencies: calcAM "
+              "vs the term; ntfl A, F vs the direct solution (1e-6); TAM = SAM + LAM bit-exact; R; precomputed-array inputs; "
+              "FreqDirect route; apparent mass at vanishing frequency = physical rigid-body mass."),
+        ref="4/C15",
+        note=("Trusted: TLC, generic evaluator (numpy complex). Scalar-DOF spring-mass networks with one rigid-body mode; interface "
+              "sizes 1-3 (6-DOF interfaces are exercised by C06's cbtf clause). The rigid-mass law is checked for a statically determinate "
+              "physical interface only."),
+        technique="TLA+ configuration lattice with route coverage (TLC) + definition terms incl. an independent Lagrange-multiplier coupled solution, replayed on every configuration",
+    ),
     "C03": dict(
         cat="exploration",
         text=("specs/Srs.tla: the option lattice 6 stype x 4 ic x 3 time x 6 peak x eqsine (864 points), the integer index model "
